@@ -36,8 +36,8 @@ def findings():
 p = os.path.join(here, 'DESIGN.md')
 s = open(p).read()
 for name, fn in (('seeds', seeds), ('findings', findings)):
-    pat = re.compile(r'(<!-- BEGIN:%s -->\n).*?(\n<!-- END:%s -->)' % (name, name), re.S)
+    pat = re.compile(r'(<!-- BEGIN:%s -->\n).*?(<!-- END:%s -->)' % (name, name), re.S)
     if pat.search(s):
-        s = pat.sub(lambda m: m.group(1) + fn() + m.group(2), s)
+        s = pat.sub(lambda m: m.group(1) + fn() + '\n' + m.group(2), s)
 open(p, 'w').write(s)
 print('DESIGN.md tables regenerated')
